@@ -1,5 +1,5 @@
 (* C34 — property theorems (statements only). *)
-From Coq Require Import Reals List.
+From Coq Require Import Reals QArith List.
 From Coquelicot Require Import Coquelicot.
 From OMV Require Import Expr.Expr Expr.ExprProofs C34.Model C34.Proofs.
 Import ListNotations.
@@ -9,8 +9,8 @@ Import ListNotations.
    components' partials are compared with on every run - is the partial derivative of output i w.r.t. input j. *)
 Theorem C34_jac_entries_are_partials :
   forall (outs : list expr) (n i j : nat) (rho : env),
-    (i < length outs)%nat -> (j < n)%nat -> smooth rho (nth i outs (ECst 0)) ->
-    is_derive (fun t => evalR (upd rho j t) (nth i outs (ECst 0))) (rho j)
+    (i < length outs)%nat -> (j < n)%nat -> smooth rho (nth i outs (ECst 0%Q)) ->
+    is_derive (fun t => evalR (upd rho j t) (nth i outs (ECst 0%Q))) (rho j)
               (nth j (nth i (comp_jac_at outs n rho) []) 0%R).
 Proof. exact jac_entries_are_partials. Qed.
 Print Assumptions C34_jac_entries_are_partials.
